@@ -1280,7 +1280,8 @@ class System:
         starting_bus = 0
         visit_idx = 0
 
-        while True:
+        # all buses are islanded: there is no island set to search for
+        while len(self.Bus.islanded_buses) < n:
             if starting_bus in self.Bus.islanded_buses:
                 starting_bus += 1
                 continue
@@ -1335,7 +1336,8 @@ class System:
             self.Bus.islands.extend([[item] for item in self.Bus.islanded_buses])
 
         if len(self.Bus.island_sets) == 0:
-            self.Bus.islands.append(list(range(n)))
+            if len(self.Bus.islanded_buses) < n:
+                self.Bus.islands.append(list(range(n)))
         else:
             self.Bus.islands.extend(self.Bus.island_sets)
 
